@@ -10,7 +10,7 @@ Arguments N.ltb : simpl never. Arguments N.eqb : simpl never. Arguments N.pow : 
 
 (* ---------- the model's tables are the ones in the source (re-extracted on every run) *)
 Lemma source_tables_agree :
-  length SRC_WIRE_OF = 18%nat /\
+  length SRC_WIRE_OF = 19%nat /\
   forallb (fun sw => wt_eqb (wire_of (fst sw)) (snd sw)) SRC_WIRE_OF = true /\
   forallb (fun wb => wt_bits (fst wb) =? snd wb) SRC_TAG_BITS = true /\ length SRC_TAG_BITS = 4%nat /\
   forallb (fun bw => match wt_new (fst bw) with Ok w => wt_eqb w (snd bw) | _ => false end) SRC_WT_NEW = true /\
